@@ -45,6 +45,8 @@ def load(p, wf=None):
         if len(q) >= 3 and q[1] == 'W':
             if wf is not None:
                 wf[q[0]] = q[2]
+                if len(q) >= 4:
+                    wf[('s', q[0])] = q[3]
         elif len(q) >= 3 and q[1] == 'R':
             res[q[0]] = q[2]
         elif len(q) >= 4 and q[1] == 'F':
@@ -77,6 +79,15 @@ def emit_run(tier, seed, d):
             continue
         agree = {}
         for cid, w in wf.items():
+            if isinstance(cid, tuple):
+                # Spec/WfSpec.v spec_ok (depth 60) on the document itself: C01_extraction_total applies where it holds
+                WF['spec_ok_' + w] = WF.get('spec_ok_' + w, 0) + 1
+                if w == 't' and wf.get(cid[1]) == 'x' and len(disagreements) < 40:
+                    disagreements.append({'case': cid[1], 'what': 'spec_ok holds but the model\'s extraction returned an error (contradicts C01_extraction_total: driver defect)',
+                                          'spec': dehex(cases.get(cid[1], ''))[:5000]})
+                if w == 't' and wf.get(cid[1]) == 't':
+                    WF['both_t'] = WF.get('both_t', 0) + 1
+                continue
             WF[w] = WF.get(w, 0) + 1
             if w == 'f' and ri.get(cid) == 'ok':
                 WF['f_but_generated'] += 1
@@ -627,7 +638,7 @@ def run(prop, tier, seed, extra_props=(), also_hir=False, compile_layer=False, d
                rule='corpus then generated (spec, config) pairs: specs as in the HIR engine (rich profile; every third shard wild), configs = service names of one or more words, 0-4 derive strings over simple/nested/padded/duplicate/un-tokenisable, examples on/off; every file of every emitted crate is compared with the predicted file; non-trivial = at least one feature fired; distinct by input text',
                samples=samples, feature_histogram=feats, disagreements_checked=len(disagreements), oracle_failures=len(oracle),
                known_findings_seen={k: len(v) for k, v in known_seen.items()}, proof_problems=ps['problems'], hir_level=hir_part, compile_level=compile_part, determinism_level=det_part, execution_level=exec_part,
-               totality_hypotheses=dict(WF, note='Spec/Wf.v hir_ok (depth 60) evaluated on every table the model extracts: t = C01_emission_total applies, f = it does not (f_but_generated: the implementation produced a crate anyway), x = extraction itself returned an error'))
+               totality_hypotheses=dict(WF, note='Spec/Wf.v hir_ok (depth 60) evaluated on every table the model extracts: t = C01_emission_total applies, f = it does not (f_but_generated: the implementation produced a crate anyway), x = extraction itself returned an error; spec_ok_t / spec_ok_f = Spec/WfSpec.v spec_ok (depth 60) on the document, t = C01_extraction_total applies; both_t = both theorems apply, the whole pipeline is proved total on that input'))
     write_evidence(prop, tier, seed, 'proof', cov, time.time() - t0, len(out.violations),
                    assumptions=['names and documentation are ASCII or UTF-8 text; trimming is modelled for ASCII white space'])
     return out.finish()
